@@ -9,7 +9,7 @@ Extracts, with Python `ast` and FAIL-CLOSED (any statement or expression that is
     true), byte range, packer, expression
   * write_cropped_file_by_indexes : the layout refusal (if present), the unit counts, the six arguments of
     loader.read_chunk_range, the order "checks, header, chunk read, THEN open(out_file)", the order of the writes, the
-    footer reshape, crop window, item size and the padding term of each array
+    footer loop's skip test (duplicate header words), the reshape, crop window, item size and the padding term of each array
   * write_cropped_file_by_coords / get_index_range : which axis goes with which range, include_stop
 and writes them as Gallina definitions over the reader's generated attributes (Gen/Reader.v) into Gen/Cropping.v.
 The STATEMENT SKELETON is checked against the one that Model/Cropper.v interprets; every EXPRESSION is translated
@@ -92,6 +92,9 @@ class Tx:
 
     # ---- the translator
     def tx(self, e):
+        sp = getattr(self, 'special', None)
+        if sp and isinstance(e, ast.AST) and ast.unparse(e) in sp:
+            return sp[ast.unparse(e)]
         m = getattr(self, 'tx_' + type(e).__name__, None)
         if m is None:
             self.bad(e, f'expression form {type(e).__name__} not recognised')
@@ -571,6 +574,20 @@ def gen_write(fd, consts):
            'Definition crp_open_after_checks : bool := true.\n\n'
     kv = wb[3].target.id
     fb = wb[3].body
+    # optional first statement of the loop: `if <test on k and self.hw_info.table[k][1]>: continue`  (skip this key)
+    skip = 'false'
+    if fb and isinstance(fb[0], ast.If) and not fb[0].orelse and len(fb[0].body) == 1 and isinstance(fb[0].body[0], ast.Continue):
+        ts = Tx(consts, fn)
+        ts.env[kv] = ('Z', 'k')
+        ts.special = {f'self.hw_info.table[{kv}][1]': ('Z', 'ref')}
+        skip = ts.b(fb[0].test)
+        fb = fb[1:]
+    out += '(* the loop runs over stored_header_keys (every word whose template entry is a file offset, duplicates of another\n' \
+           '   word included); k = the header word, ref = hw_info.table[k][1] (the word whose array it uses; k itself for an owner).\n' \
+           '   true = this key is skipped (`continue`) *)\n' \
+           f'Definition crp_footer_skip (k ref : Z) : bool := {skip}.\n'
+    if len(fb) < 3:
+        bad(wb[3], 'footer loop body not recognised', fn)
     # header_array = self.variant_headers[k].reshape((A, B)).astype(np.int32)
     s0 = fb[0]
     ok = isinstance(s0, ast.Assign) and isinstance(s0.targets[0], ast.Name) and isinstance(s0.value, ast.Call) and \
